@@ -202,6 +202,27 @@ PROPS["C19"] = {
     },
 }
 
+PROPS["C07"] = {
+    "level": "exploration",
+    "rule": ("two run kinds. queue level (60%): the real OutQueue and InQueue joined by a driver-owned channel performing the tunnel's stop-and-wait exchange, with a per-exchange fate {delivered, "
+             "query lost, answer lost, query duplicated, old query replayed, late (old) acknowledgement}, drawn start sequence number (0, just before the 16-bit wrap, anywhere, 65535), fragment size and "
+             "write partition, and (1 run in 40 quick / 12 thorough) a stream of more than 70 000 one-byte packets; connection level (40%): real ClientDnsConnection and ServerDnsListener over "
+             "simulated UDP with the real miekg exchange and timeouts, handshake on a clean path, then concurrent writes both ways under datagram loss / duplication / reordering / late delivery / "
+             "replay of old queries, classes clean, isolated-loss (at least 8 fault-free deliveries between faults) and heavy, then a fault-free drain; non-trivial = the run reached its final "
+             "judgement; distinct = schedule shapes"),
+    "probes": ["queue_exchanges", "conn_bytes_moved", "sequence_wrap_crossed", "sequence_wrap_region", "fault_query_lost", "fault_answer_lost", "fault_query_dup",
+               "fault_old_query_replayed", "fault_late_answer", "fault_dgram_loss", "fault_dgram_dup", "fault_delay"],
+    "technique": "deterministic simulation: seeded search over per-exchange fates x writes/reads both ways, sequence wrap via start numbers and long streams, PRF prefix / exactly-once / acknowledged-implies-delivered / absorption / termination oracles",
+    "level_text": ("Seeded exploration of fault histories. Every byte read is checked against the position-addressable PRF stream of what the peer's Write calls accepted (gap, repeat and reorder "
+                   "are caught at the first bad byte); after the drain everything a successful Write accepted must have been read and every Write must have returned; in the isolated-loss class "
+                   "no Write may fail and the connection must stay open (losses absorbed by retransmission)."),
+    "level_note": "Starting sequence numbers are installed through an accessor injected into the scratch copy only, before any packet or acknowledgement is exchanged. Queue-level runs replace the DNS transport by the driver; connection-level runs use the real transport code over simnet datagrams.",
+    "tiers": {
+        "quick": {"runs": 1200, "chunk": 100, "shrink_s": 40, "stall_s": 300},
+        "thorough": {"runs": 40000, "chunk": 200, "shrink_s": 120, "stall_s": 300},
+    },
+}
+
 PENDING = "check under construction in this round; see DESIGN.md section 5 for the planned simulation"
 NOT_APPLICABLE = [
     {"property_id": "C08", "reason": "pure function of one byte string (codec Encode/Decode): no schedule, clock, fault or second party for a simulator to control; see DESIGN.md section 6"},
